@@ -71,10 +71,11 @@ type frame struct {
 	symEnt map[*ssa.BasicBlock]int
 	depth  int
 	stop   map[*ssa.BasicBlock]bool // RunFrom: reaching one of these ends the path
+	defers []*FuncVal               // deferred closures of this activation, in registration order
 }
 
 func (fr *frame) clone() *frame {
-	n := &frame{fn: fr.fn, depth: fr.depth, stop: fr.stop, env: make(map[ssa.Value]Value, len(fr.env)), visits: make(map[*ssa.BasicBlock]int, len(fr.visits)), symEnt: make(map[*ssa.BasicBlock]int, len(fr.symEnt))}
+	n := &frame{fn: fr.fn, depth: fr.depth, stop: fr.stop, defers: fr.defers, env: make(map[ssa.Value]Value, len(fr.env)), visits: make(map[*ssa.BasicBlock]int, len(fr.visits)), symEnt: make(map[*ssa.BasicBlock]int, len(fr.symEnt))}
 	for k, v := range fr.symEnt {
 		n.symEnt[k] = v
 	}
@@ -282,7 +283,37 @@ func (in *Interp) instrs(fr *frame, b *ssa.BasicBlock, i int, st *State, k func(
 			}
 		case *ssa.Defer:
 			st.Effects = append(st.Effects, Effect{Kind: "defer", Pos: ins.Pos()})
+			// a deferred closure of the function itself (no arguments): run when the function returns
+			if !ins.Call.IsInvoke() && len(ins.Call.Args) == 0 {
+				if _, isClosure := ins.Call.Value.(*ssa.MakeClosure); isClosure {
+					if fv, ok := in.operand(fr, ins.Call.Value, st).(*FuncVal); ok {
+						fr.defers = append(fr.defers[:len(fr.defers):len(fr.defers)], fv)
+					}
+				}
+			}
 		case *ssa.RunDefers:
+			if len(fr.defers) > 0 {
+				ii := i
+				ds := fr.defers
+				var run func(j int, st *State)
+				run = func(j int, st *State) {
+					if j < 0 {
+						fr2 := fr.clone()
+						fr2.defers = nil
+						in.instrs(fr2, b, ii+1, st, k)
+						return
+					}
+					in.call(ds[j].Fn, ds[j].Bindings, nil, st, fr.depth+1, func(o Outcome) {
+						if o.Panic || o.Abort {
+							k(o)
+							return
+						}
+						run(j-1, o.St)
+					})
+				}
+				run(len(ds)-1, st)
+				return
+			}
 		case *ssa.Call:
 			ii := i
 			in.doCall(fr, ins, st, func(st2 *State, ret Value) {
